@@ -37,6 +37,10 @@ pub struct Case {
     /// accepts the `away` commands: what it logs afterwards has to be found by the incremental synchronisation, too
     #[serde(default)]
     pub primary_restarts: bool,
+    /// at the end of the away phase database d1/d2 (created with the arbiter strategy now if it does not exist) gets a
+    /// conflict on key c that an arbiter client resolves: the resolved value is a write like any other
+    #[serde(default)]
+    pub resolved_conflict_while_away: Option<usize>,
 }
 
 fn cmd_strategy() -> impl Strategy<Value = Cmd> {
@@ -61,8 +65,9 @@ pub fn case_strategy() -> impl Strategy<Value = Case> {
         any::<bool>(),
         prop::collection::vec(prop_oneof![3 => Just(0u16), 1 => any::<u16>()], 0..50),
         prop::bool::weighted(0.3),
+        prop_oneof![3 => Just(None), 1 => (1..3usize).prop_map(Some)],
     )
-        .prop_map(|(before, away, during, leave, disk, joiner_snapshots, schedule, primary_restarts)| Case { before, away, during, leave: leave.to_string(), disk: disk.to_string(), joiner_snapshots, schedule, primary_restarts })
+        .prop_map(|(before, away, during, leave, disk, joiner_snapshots, schedule, primary_restarts, resolved_conflict_while_away)| Case { before, away, during, leave: leave.to_string(), disk: disk.to_string(), joiner_snapshots, schedule, primary_restarts, resolved_conflict_while_away })
 }
 
 fn dbname(i: usize) -> String {
@@ -143,6 +148,16 @@ pub fn run_case(ctx: &Ctx, case: &Case) -> Outcome {
         issue(&mut c, &mut ctl, cmd);
         settle(&mut c, "before departure", &mut fail);
     }
+    // (the key of the conflict that will be resolved while the joiner is away is written before it leaves, when its
+    // database exists by then: the resolution is then the ONLY thing that happens to the key while the joiner is away)
+    let mut conflict_key_written_before = false;
+    if let (Some(db), None) = (case.resolved_conflict_while_away, &fail) {
+        if ctl.exists.contains(&db) {
+            c.client(0, vec![auth.clone(), format!("use-db {} tok{}", dbname(db), db), "set c base1".into(), "set c base2".into()]);
+            settle(&mut c, "before departure (conflict key)", &mut fail);
+            conflict_key_written_before = true;
+        }
+    }
     // the snapshots requested so far are executed on both nodes (declutter tick)
     if fail.is_none() {
         c.nodes[0].node.as_ref().unwrap().snapshot_tick();
@@ -194,6 +209,35 @@ pub fn run_case(ctx: &Ctx, case: &Case) -> Outcome {
                 }
             }
             settle(&mut c, "while away", &mut fail);
+        }
+    }
+    if let (Some(db), None) = (case.resolved_conflict_while_away, &fail) {
+        let name = dbname(db);
+        if !ctl.exists.contains(&db) {
+            ctl.exists.insert(db);
+            away_creates.insert(db);
+            c.client(0, vec![auth.clone(), format!("create-db {} tok{} arbiter", name, db)]);
+            settle(&mut c, "while away (arbiter database)", &mut fail);
+        }
+        let is_arbiter = c.nodes[0].node.as_ref().unwrap().dbs.map.read().unwrap().get(&name).map(|d| d.metadata.consensus_strategy.to_string() == "arbiter").unwrap_or(false);
+        if is_arbiter && fail.is_none() {
+            let login = format!("use-db {} tok{}", name, db);
+            if !conflict_key_written_before {
+                c.client(0, vec![auth.clone(), login.clone(), "set c base1".into(), "set c base2".into()]);
+            }
+            let sid = c.open_session(0);
+            c.session_send(sid, vec![login.clone(), "arbiter".into()]);
+            c.client(0, vec![login.clone(), "set-safe c 0 loser".into()]);
+            settle(&mut c, "while away (conflict)", &mut fail);
+            let pending = c.nodes[0].node.as_ref().unwrap().dump_db(&name).and_then(|m| m.iter().find(|(k, v)| k.starts_with("$conflicts_c_") && !v.0.starts_with("resolved")).map(|(k, v)| (k["$conflicts_c_".len()..].to_string(), v.0.split(' ').nth(3).and_then(|x| x.parse::<i32>().ok()).unwrap_or(0))));
+            if let Some((id, ver)) = pending {
+                c.session_send(sid, vec![format!("resolve {} {} c {} winner", id, name, ver)]);
+                settle(&mut c, "while away (resolve)", &mut fail);
+                away_updates.insert((db, "c".to_string()));
+                away_updates.insert((db, format!("$conflicts_c_{}", id)));
+            }
+            c.close_session(sid);
+            settle(&mut c, "while away (arbiter leaves)", &mut fail);
         }
     }
     // ---- it comes back; commands accepted by the primary during the synchronisation
@@ -524,9 +568,14 @@ fn away_scripts(max_len: usize) -> Vec<Case> {
                 i /= n;
             }
             for leave in ["clean", "kill"] {
-                out.push(Case { before: vec![Cmd::Snapshot { db: 0 }], away: away.clone(), during: vec![], leave: leave.to_string(), disk: "kept".to_string(), joiner_snapshots: true, schedule: vec![], primary_restarts: false });
+                out.push(Case { before: vec![Cmd::Snapshot { db: 0 }], away: away.clone(), during: vec![], leave: leave.to_string(), disk: "kept".to_string(), joiner_snapshots: true, schedule: vec![], primary_restarts: false, resolved_conflict_while_away: None });
                 if len <= 2 {
-                    out.push(Case { before: vec![Cmd::Snapshot { db: 0 }], away: away.clone(), during: vec![], leave: leave.to_string(), disk: "kept".to_string(), joiner_snapshots: true, schedule: vec![], primary_restarts: true });
+                    out.push(Case { before: vec![Cmd::Snapshot { db: 0 }], away: away.clone(), during: vec![], leave: leave.to_string(), disk: "kept".to_string(), joiner_snapshots: true, schedule: vec![], primary_restarts: true, resolved_conflict_while_away: None });
+                }
+                if len == 1 {
+                    // an arbiter database that exists (and is on both disks) before the joiner leaves; while it is away a
+                    // conflict on one of its keys is resolved
+                    out.push(Case { before: vec![Cmd::CreateDb { db: 2, strategy: "arbiter".into() }, Cmd::Set { db: 2, k: "a".into(), v: "x".into() }, Cmd::Snapshot { db: 2 }, Cmd::Snapshot { db: 0 }], away: away.clone(), during: vec![], leave: leave.to_string(), disk: "kept".to_string(), joiner_snapshots: true, schedule: vec![], primary_restarts: false, resolved_conflict_while_away: Some(2) });
                 }
             }
         }
